@@ -429,8 +429,7 @@ def judge(real: Any, ref: Any, ctx: Optional[Ctx], env: Optional[Dict[str, Any]]
             except Undefined:
                 return problems, asked, proved, model
             asked += 1
-            dom = d1 + d2 + powr_axioms(a, b)
-            r, m = ctx.query(*dom, a != b)
+            r, m = ctx.query_lazy(d1 + d2 + [a != b], powr_axioms(a, b))
             if r == "unsat":
                 # domains must agree as well: the real tree must be defined wherever the reference is
                 proved += 1
@@ -575,6 +574,9 @@ def worker(item: Tuple[int, Tuple[int, ...]]) -> Dict[str, Any]:
 
 
 def replay_record(rec: Dict[str, Any]) -> Tuple[bool, str]:
+    if rec.get("kind") == "literal":
+        probs = literal_check(rec["template"], rec["literal"])
+        return bool(probs), "; ".join(m for _, m in probs)
     probs = concrete_check(rec["kinds"])
     return bool(probs), "; ".join(m for _, m in probs)
 
@@ -598,6 +600,82 @@ def explore_tokens(prop: str, rep: Report, Nmax: int, budget: float) -> None:
             rep.inconclusive += 1
         else:
             rep.harness_errors.append(f"{item!r}: {res}")
+
+
+# ------------------------------------------------------------------------------------------------
+# literal spellings (text needs digits: concrete pool, selector explored by the engine)
+# ------------------------------------------------------------------------------------------------
+
+LITERALS = ["2", "007", "0", "12", "1.5", ".5", "5.", "0.25", "00.50", "9007199254740993", "123456789012345678901234567890",
+            "18446744073709551616", "1000000000000000000000.5", "0.1", ".", "1.2.3", "1..2", ".."]
+TEMPLATES = ["{c}", "-{c}", "{c}!", "{c}x", "x^{c}", "x + {c}", "({c})", "{c} / 4"]
+
+
+def literal_expect(text: str) -> Any:
+    digits = sum(ch.isdigit() for ch in text)
+    dots = text.count(".")
+    if digits == 0 or dots > 1:
+        return ValueError
+    return float(text) if dots else int(text)
+
+
+def literal_check(ti: int, li: int) -> List[Tuple[str, str]]:
+    lit = LITERALS[li]
+    text = TEMPLATES[ti].format(c=lit)
+    want = literal_expect(lit)
+    try:
+        tree = ExpressionParser().parse(text)
+    except ValueError:
+        if want is ValueError:
+            return []
+        return [("C03:literal", f"parse({text!r}) raised ValueError for the well-formed literal {lit}")]
+    except ParserException as e:
+        if want is ValueError:
+            return [("C03:literal", f"parse({text!r}): the malformed literal {lit!r} must be reported as ValueError, got {type(e).__name__}")]
+        return [("C03:literal", f"parse({text!r}) raised {type(e).__name__}")]
+    except Exception as e:
+        return [("C10:internal-error", f"parse({text!r}) raised {type(e).__name__}")]
+    if want is ValueError:
+        return [("C03:literal", f"parse({text!r}) accepted the malformed literal {lit!r}")]
+    if TEMPLATES[ti].startswith("-{c}"):
+        want = -want
+    consts = [n for n in preorder(tree) if kind(n) == "const" and not (TEMPLATES[ti].endswith("/ 4") and n.value == 4 and n.parent is not None
+                                                                     and n.parent.right is n)]
+    if len(consts) != 1:
+        return [("C03:literal", f"parse({text!r}) produced {len(consts)} constants")]
+    got = consts[0].value
+    if type(got) is not type(want) or got != want:
+        return [("C03:literal", f"parse({text!r}): the literal {lit} was read as {got!r} ({type(got).__name__}), it denotes {want!r}")]
+    return []
+
+
+def literal_worker(_: Any) -> Dict[str, Any]:
+    st = Stats()
+    part: Dict[str, Any] = {"stats": st, "cases": 1, "nontrivial": 0, "proved": 0, "queries": 0, "inconclusive": 0,
+                            "violations": [], "samples": [], "reach": {}, "inconclusive_samples": [],
+                            "engine_mismatch": 0, "mismatch_samples": [], "validated": 0}
+
+    def h(ctx: Ctx) -> Any:
+        ti, li = ctx.choose(len(TEMPLATES), "tpl"), ctx.choose(len(LITERALS), "lit")
+        return literal_check(ti, li), ti, li
+
+    for r in explore(h, st):
+        if r.status != "ok":
+            part["inconclusive"] += 1
+            continue
+        problems, ti, li = r.value
+        part["nontrivial"] += 1
+        part["queries"] += 1
+        if not problems:
+            part["proved"] += 1
+            continue
+        for lab, msg in literal_check(ti, li)[:1]:
+            prop, fault = lab.split(":")
+            part["violations"].append(Violation(prop, fault, {"fault": fault, "literal": LITERALS[li]}, msg,
+                                                {"kind": "literal", "template": ti, "literal": li, "observed": msg}))
+    part["reach"]["literals"] = 1
+    part["samples"].append({"literals": LITERALS, "templates": TEMPLATES})
+    return part
 
 
 FUNCTIONS = ["ExpressionParser.parse/_parse/tokenize", "parse_equal/parse_add/parse_mult/parse_exponent/parse_unary/"
@@ -629,6 +707,10 @@ def run(prop: str, tier: str) -> int:
             "(links, arity, no node object twice) or in ParserException/ValueError; any other exception is a violation. "
             "Termination: every path is finite (a step budget turns a runaway path into an inconclusive one).")
     explore_tokens(prop, rep, Nmax, 400 if tier == "quick" else 3000)
+    lit = literal_worker(None)
+    lit["violations"] = [v for v in lit["violations"] if v.prop == prop]
+    rep.absorb(lit)
+    rep.bounds["literals"] = f"{len(TEMPLATES)} templates x {len(LITERALS)} literal spellings (int / float / beyond 2^53 / malformed)"
     if prop == "C10":
         from . import parser_state
 
